@@ -13,6 +13,32 @@ entries = json.load(open(os.path.join(here, 'known_findings.json')))
 for f in sorted(glob.glob(os.path.join(here, 'known_findings.d', '*.json'))):
     entries += json.load(open(f))
 out = []
+man = json.load(open(os.path.join(here, 'MANIFEST.json')))
+out.append('### 10.1 Status per property (generated from MANIFEST.json, evidence/, known findings, mutants/, seeded/)\n')
+out.append('`evaluations` / `distinct` are those of the evidence file present when this table was generated (tier in brackets).\n')
+out.append('| property | claimed level | last evidence: evaluations / distinct non-trivial | fixed | known | builder mutants | seeded defect |')
+out.append('|---|---|---|---|---|---|---|')
+mut = {}
+for f in glob.glob(os.path.join(here, 'mutants', '*.diff')):
+    k = os.path.basename(f).split('-')[0].upper()
+    mut[k] = mut.get(k, 0) + 1
+claimed = {c['property_id']: c for c in man['checks']}
+for l in open(os.path.join(here, 'properties.jsonl')):
+    pid = json.loads(l)['id']
+    nf = len([e for e in entries if e['property'] == pid and e['kind'] == 'fixed'])
+    nk = len([e for e in entries if e['property'] == pid and e['kind'] == 'known'])
+    evs = '-'
+    ef = os.path.join(here, 'evidence', pid + '.json')
+    if os.path.exists(ef):
+        e = json.load(open(ef))
+        evs = f"{e['coverage']['evaluations']} / {e['coverage']['distinct_nontrivial']} ({e['tier']}, seed {e['seed']})"
+    sd = '-'
+    rf = os.path.join(here, 'seeded', pid, 'result_quick.json')
+    if os.path.exists(rf):
+        sd = 'caught' if json.load(open(rf))['caught'] else 'MISSED'
+    lvl = claimed[pid]['level_claimed']['category'] if pid in claimed else 'not claimed'
+    out.append(f"| {pid} | {lvl} | {evs} | {nf} | {nk} | {mut.get(pid, 0)} | {sd} |")
+out.append('')
 out.append('### 10.2 Findings on the pinned tree (generated from known_findings.json + known_findings.d/)\n')
 fixed = [e for e in entries if e['kind'] == 'fixed']
 known = [e for e in entries if e['kind'] == 'known']
